@@ -356,6 +356,12 @@ func genChCase(g *Rng) ChCase {
 			continue
 		}
 		e := genChEntry(g, i != badAt)
+		if i > 0 && i != badAt && g.Chance(25) { // the plugin of an earlier entry again, with options of its own
+			prev := c.Chain[g.Intn(len(c.Chain))].Name
+			for k := 0; k < 20 && e.Name != prev; k++ {
+				e = genChEntry(g, true)
+			}
+		}
 		if g.Chance(45) { // interleave probes so that order and gating are visible
 			c.Chain = append(c.Chain, ChEntry{Name: "vprobe"})
 		}
@@ -406,6 +412,12 @@ func TestChain(t *testing.T) {
 		{Enabled: false, Chain: []ChEntry{{Name: "nonexistent"}}, Key: "k1", Proc: true},
 		{Enabled: true, Chain: []ChEntry{{Name: "custom-auth", Opts: []ChKV{{K: "apiKey", V: vStr(" ")}}}, probe}, Key: "\x00"},
 		{Enabled: true, Chain: []ChEntry{{Name: "custom-auth", Opts: []ChKV{{K: "apiKey", V: vStr(" ")}}}, probe}, Key: ""},
+		// the same plugin listed twice with different options: every entry keeps its own
+		{Enabled: true, Chain: []ChEntry{sl, probe, {Name: "size_limit", Opts: []ChKV{{K: "max_request_body", V: vInt(1000)}}}, probe}, Key: "k1", Len: 9},
+		{Enabled: true, Chain: []ChEntry{{Name: "size_limit", Opts: []ChKV{{K: "max_request_body", V: vInt(1000)}}}, probe, sl, probe}, Key: "k1", Len: 9},
+		{Enabled: true, Chain: []ChEntry{auth, probe, {Name: "custom-auth", Opts: []ChKV{{K: "apiKey", V: vStr("secret")}}}, probe}, Key: "k1"},
+		{Enabled: true, Chain: []ChEntry{auth, probe, {Name: "custom-auth", Opts: []ChKV{{K: "apiKey", V: vStr("secret")}}}, probe}, Key: "secret"},
+		{Enabled: true, Chain: []ChEntry{probe, sl, auth, sl, auth, probe}, Key: "k1", Len: 8, Again: 1},
 	}
 	for _, c := range corpus {
 		emit("corpus", c)
